@@ -167,3 +167,23 @@ class Recorder:
             "maxima": self.maxima, "notes": self.notes,
             "sets": {k: sorted(v) for k, v in self.sets.items()},
         }
+
+
+def pinned_result(sub: Recorder, finding: dict) -> dict:
+    """Verdict of replaying one listed witness into a scratch recorder.
+
+    known  -> reproduced iff the classifier matched *this* finding again.
+    fixed  -> reproduced iff an unlisted failure occurred (hitting another known finding is not this defect returning).
+    """
+    if finding.get("status") == "known":
+        reproduced = finding["id"] in sub.known
+    else:
+        reproduced = bool(sub.n_fail)
+    if sub.fails:
+        detail = sub.fails[0]["what"] + " :: " + str(sub.fails[0].get("observed"))[:200]
+    elif sub.known:
+        k = next(iter(sub.known.items()))
+        detail = f"{k[0]}: {k[1]['first']['what']}"
+    else:
+        detail = "passes"
+    return {"reproduced": reproduced, "detail": detail}
